@@ -102,7 +102,7 @@ impl PartialEq for Value {
             }
             Value::ArgList(list1) => match other {
                 Value::ArgList(list2) => list1 == list2,
-                Value::List(list2, ListSeparator::Comma, ..) => {
+                Value::List(list2, ListSeparator::Comma, Brackets::None) => {
                     if list1.len() != list2.len() {
                         return false;
                     }
